@@ -15,6 +15,8 @@ mod c17;
 mod c27;
 #[cfg(feature = "full")]
 mod c12;
+#[cfg(feature = "full")]
+mod pipeline;
 
 use util::*;
 
@@ -77,6 +79,18 @@ fn main() {
         "c27" => c27::run(&args),
         #[cfg(feature = "full")]
         "c12" => c12::run(&args),
+        #[cfg(feature = "full")]
+        "pipeline" => pipeline::run(&args),
+        "c26replay" => {
+            // replay a recorded scheduling log (json array on stdin) against the reference model
+            let mut s = String::new();
+            std::io::Read::read_to_string(&mut std::io::stdin(), &mut s).unwrap();
+            let v: serde_json::Value = serde_json::from_str(&s).unwrap();
+            match c26::replay_recorded(v.as_array().unwrap()) {
+                Ok((rounds, cyc, dev)) => serde_json::json!({"ok": true, "rounds": rounds, "cyclic_rounds": cyc, "protocol_deviations": dev}),
+                Err((k, m)) => serde_json::json!({"ok": false, "key": k, "message": m}),
+            }
+        }
         other => {
             eprintln!("unknown check {other}");
             std::process::exit(2);
